@@ -479,6 +479,17 @@ func c16Run(t *testing.T, c *vkit.Check, memo map[string]bool, cs c16Case, offer
 		}
 		outcome("reoffer-answered")
 		c16Oracle(c, memo, cs, reoffer, answer2.SDP, "|reoffer")
+		// the same re-offer as an offerer produces it that removes a codec by editing the m= line only: the
+		// a=rtpmap line of the dropped payload type is still there (the format list decides what is offered)
+		if leftover := c16LeftoverRtpmap(reoffer, dropped, remote); leftover != "" && pc.SetLocalDescription(answer2) == nil {
+			if err := pc.SetRemoteDescription(SessionDescription{Type: SDPTypeOffer, SDP: leftover}); err == nil {
+				if answerL, aerr := pc.CreateAnswer(nil); aerr == nil {
+					outcome("leftover-rtpmap-reoffer-answered")
+					c16Oracle(c, memo, cs, leftover, answerL.SDP, "|reoffer-with-leftover-rtpmap")
+					answer2 = answerL
+				}
+			}
+		}
 		// third round: a re-offer of the FULL list whose video primaries have exchanged their numbers
 		if c16DistinctPrimaries(remote) < 2 || pc.SetLocalDescription(answer2) != nil {
 			return
@@ -501,6 +512,38 @@ func c16Run(t *testing.T, c *vkit.Check, memo map[string]bool, cs c16Case, offer
 		outcome("rotated-reoffer-answered")
 		c16Oracle(c, memo, cs, rot, answer3.SDP, "|rotated-reoffer")
 	})
+}
+
+// c16LeftoverRtpmap inserts, into the video section of an offer that no longer lists payload type pt, the
+// a=rtpmap line that payload type had in the full list. "" when the list has no such entry.
+func c16LeftoverRtpmap(offer string, pt int, remote []c16Codec) string {
+	line := ""
+	for _, r := range remote {
+		if r.PT == pt && r.Kind == "video" {
+			line = fmt.Sprintf("a=rtpmap:%d %s/%d", r.PT, r.Name, r.Clock)
+		}
+	}
+	if line == "" {
+		return ""
+	}
+	lines := strings.Split(strings.TrimRight(offer, "\r\n"), "\r\n")
+	var out []string
+	in, done := false, false
+	for _, l := range lines {
+		if strings.HasPrefix(l, "m=") {
+			in = strings.HasPrefix(l, "m=video")
+		}
+		if in && !done && strings.HasPrefix(l, "a=rtpmap:") {
+			out = append(out, line)
+			done = true
+		}
+		out = append(out, l)
+	}
+	if !done {
+		return ""
+	}
+
+	return strings.Join(out, "\r\n") + "\r\n"
 }
 
 func c16Typ(kind string) RTPCodecType {
